@@ -262,8 +262,8 @@ mut('c05-flag-not-set', 'C05', ['C05.2'], M,
 
 # ================================================================================================ C06
 mut('c06-no-lock-in-step', 'C06', ['C06.1'], S,
-    "        async with _get_global_lock():\n            # Process the event\n            try:\n                await self.process_event(event, timeout=timeout)\n            finally:\n                # Mark task as done only if we got it from the queue, also when processing was\n                # interrupted (e.g. cancelled), otherwise event_queue.join() would wait forever\n                if from_queue:\n                    self.event_queue.task_done()\n",
-    "        if True:\n            # Process the event\n            try:\n                await self.process_event(event, timeout=timeout)\n            finally:\n                # Mark task as done only if we got it from the queue, also when processing was\n                # interrupted (e.g. cancelled), otherwise event_queue.join() would wait forever\n                if from_queue:\n                    self.event_queue.task_done()\n",
+    "            async with _get_global_lock():\n                # Process the event\n                await self.process_event(event, timeout=timeout)\n",
+    "            if True:\n                # Process the event\n                await self.process_event(event, timeout=timeout)\n",
     'step processes without the lock')
 mut('c06-per-bus-lock', 'C06', ['C06.1'], S,
     "    global _global_eventbus_lock\n    if _global_eventbus_lock is None:\n        _global_eventbus_lock = ReentrantLock()\n    return _global_eventbus_lock",
@@ -408,3 +408,55 @@ mut('c09-ctx-written-in-dispatch', 'C09', ['C09.6'], S,
     "        # Auto-start if needed\n        self._start()\n",
     "        # Auto-start if needed\n        _current_event_context.set(event)\n        self._start()\n",
     'dispatch overwrites the current-event context')
+
+# ================================================================================================ C10
+mut('c10-timeout-from-param', 'C10', ['C10.1'], S,
+    "                result_value: Any = await asyncio.wait_for(handler_task, timeout=event_result.timeout)",
+    "                result_value: Any = await asyncio.wait_for(handler_task, timeout=timeout)",
+    "handler runs under the step timeout (usually None) instead of the event's timeout")
+mut('c10-no-wait-for', 'C10', ['C10.1'], S,
+    "                result_value: Any = await asyncio.wait_for(handler_task, timeout=event_result.timeout)",
+    "                result_value: Any = await handler_task",
+    'handler awaited without a timeout')
+mut('c10-result-timeout-const', 'C10', ['C10.1'], M,
+    "                    timeout=self.event_timeout,\n                    result_type=self.event_result_type,",
+    "                    timeout=300.0,\n                    result_type=self.event_result_type,",
+    'result record timeout is a constant')
+mut('c10-no-cancel-children', 'C10', ['C10.2'], S,
+    "            event.event_cancel_pending_child_processing(handler_timeout_error)\n", "",
+    'pending child results are left pending after a timeout')
+mut('c10-timeout-raises-baseexception', 'C10', ['C10.2'], S,
+    "            raise handler_timeout_error from e\n", "            raise asyncio.CancelledError(str(handler_timeout_error)) from e\n",
+    'timeout surfaces as CancelledError: not contained by _execute_handlers')
+mut('c10-cleanup-unbounded', 'C10', ['C10.3'], S,
+    "                    await asyncio.wait_for(handler_task, timeout=0.1)\n", "                    await asyncio.wait_for(handler_task, timeout=None)\n",
+    'cleanup wait on the cancelled task is unbounded')
+mut('c10-no-cancel-task', 'C10', ['C10.3'], S,
+    "            if handler_task and not handler_task.done():\n                handler_task.cancel()\n",
+    "            if handler_task and not handler_task.done() and event_result.timeout:\n                handler_task.cancel()\n",
+    'handler task not cancelled when the event has no timeout')
+mut('c10-cancel-nonpending', 'C10', ['C10.4'], M,
+    "                if result.status == 'pending':\n", "                if result.status in ('pending', 'started'):\n",
+    'started child results are overwritten')
+mut('c10-no-recursion', 'C10', ['C10.4'], M,
+    "            child_event.event_cancel_pending_child_processing(error)\n", "            pass\n",
+    'grandchildren are not cancelled')
+mut('c10-revert-f5a-step', 'C10', ['C10.5'], S,
+    "        try:\n            async with _get_global_lock():\n                # Process the event\n                await self.process_event(event, timeout=timeout)\n        finally:\n            # Mark task as done only if we got it from the queue, also when processing was interrupted or we were\n            # cancelled while still waiting for the lock, otherwise event_queue.join() would wait forever\n            if from_queue:\n                self.event_queue.task_done()\n",
+    "        async with _get_global_lock():\n            # Process the event\n            await self.process_event(event, timeout=timeout)\n            if from_queue:\n                self.event_queue.task_done()\n",
+    'task_done skipped when processing is interrupted (F5a reverted in step)')
+mut('c10-revert-f5c-step', 'C10', ['C10.5'], S,
+    "        try:\n            async with _get_global_lock():\n                # Process the event\n                await self.process_event(event, timeout=timeout)\n        finally:\n            # Mark task as done only if we got it from the queue, also when processing was interrupted or we were\n            # cancelled while still waiting for the lock, otherwise event_queue.join() would wait forever\n            if from_queue:\n                self.event_queue.task_done()\n",
+    "        async with _get_global_lock():\n            # Process the event\n            try:\n                await self.process_event(event, timeout=timeout)\n            finally:\n                if from_queue:\n                    self.event_queue.task_done()\n",
+    'task_done skipped when cancelled while waiting for the lock (F5c reverted)')
+mut('c10-revert-f5a-inline', 'C10', ['C10.5'], M,
+    "                                    try:\n                                        await bus.process_event(event)\n                                    finally:\n                                        # always balance the get_nowait(), also when we are cancelled mid-processing,\n                                        # otherwise bus.event_queue.join() / wait_until_idle() would hang forever\n                                        bus.event_queue.task_done()\n",
+    "                                    await bus.process_event(event)\n                                    bus.event_queue.task_done()\n",
+    'inline loop: task_done skipped on cancellation (F5a reverted)')
+mut('c10-task-done-unconditional', 'C10', ['C10.5'], S,
+    "            if from_queue:\n                self.event_queue.task_done()\n", "            self.event_queue.task_done()\n",
+    'task_done for events that were passed in, not dequeued')
+mut('c10-new-cancel-point-before-mark', 'C10', ['C10.6'], S,
+    "        # Mark event as complete if all handlers are done\n        event.event_mark_complete_if_all_handlers_completed()\n",
+    "        await asyncio.sleep(0)\n        # Mark event as complete if all handlers are done\n        event.event_mark_complete_if_all_handlers_completed()\n",
+    'a new suspension point before the marking step (a new key, not absorbed by F5b)')
